@@ -152,16 +152,18 @@ def check(ctx):
                 if M.mentions_path(tb.joperand(c["args"][0]), "self.stations") and f.j.get("self_ty") == ty:
                     set_sites.append((f, b, c, tb.joperand(c["args"][2])))
         ctx.anchor("stations.set() sites of " + short, len(set_sites), 2)
-        for f in {s[0].name: s[0] for s in set_sites}.values():
-            ctx.analysed_fns.add(f.name)
+        for f0 in {s[0].name: s[0] for s in set_sites}.values():
+            ctx.analysed_fns.add(f0.name)
+            # events built inside a closure handed to Option::map & co. are read as the `match` the combinator stands for
+            from analysis.inline import desugar
+            f = desugar(P, f0)
             marks = {}
             for sf, b, c, val in set_sites:
-                if sf is f:
+                if sf is f0:
                     marks[(b, None)] = "set_true" if val == ("const", True) else ("set_false" if val == ("const", False) else "set_other")
             for kind in ("found", "lost"):
-                for e in variant_uses(P, CR, *cfg[kind]):
-                    if e["fn"] is f:
-                        marks[(e["b"], e["i"])] = kind
+                for e in variant_uses(P, CR, *cfg[kind], fns=[f]):
+                    marks[(e["b"], e["i"])] = kind
             g = GuardAnalysis(f, P, marks=marks)
             bad = []
             for rb in f.return_blocks:
